@@ -351,6 +351,10 @@ func (c *Ctx) c15FileLoads() {
 		{map[string]string{"main/main.go": "package main\nimport \"helper\"\nfunc init() { println(\"main\") }\n", "helper/helper.go": "package helper\nfunc init() { println(\"helper\") }\n",
 			"helper/helper_test.go": "package helper\nfunc init() { println(\"BAD helper_test.go init\") }\n"}, "main", "helper\nmain\n"},
 		{map[string]string{"helper/helper_test.go": "package helper\nfunc init() { println(\"BAD helper_test.go init\") }\n"}, "helper", "ERROR"},
+		// a //go:build line counts only in the header of a file: after the package clause, or inside a raw string, it is text
+		{map[string]string{"main/main.go": "package main\nimport \"lib\"\nfunc init() { println(\"main\", lib.N, len(lib.Header) > 0) }\n", "lib/a.go": "package lib\nvar N = 1\nfunc init() { println(\"lib\") }\n",
+			"lib/b.go": "package lib\n\n//go:build ignore\n\nfunc init() { N++; println(\"lib b\") }\n", "lib/c.go": "package lib\n\nconst Header = `\n//go:build !goat\n\npackage x\n`\n",
+			"lib/d.go": "// a comment\n\n//go:build ignore\n\npackage lib\n\nfunc init() { println(\"BAD d\") }\n"}, "main", "lib\nlib b\nmain 2 true\n"},
 		{map[string]string{"main/main.go": "package main\nimport \"example.com/x/helper\"\nfunc init() { println(\"main\") }\n", "vendor/example.com/x/helper/h_test.go": "package helper\nfunc init() { println(\"BAD vendored test\") }\n",
 			"helper/helper.go": "package helper\nfunc init() { println(\"helper\") }\n"}, "main", "main\n"},
 	} {
